@@ -467,7 +467,14 @@ func c14Client(r *vf.Run, t *testing.T, id string, rng *rand.Rand) {
 	if !amplify && rng.Intn(5) == 0 {
 		churn = 20 + rng.Intn(60)
 	}
-	replay := map[string]any{"role": "client", "downloads": k, "cancelled": nCancel, "empty_padded_frames": emptyPadded, "amplify": amplify, "cancel_churn_rounds": churn}
+	// a graceful shutdown in the middle: the server says GOAWAY (covering everything in flight) and goes on answering; the
+	// streams it still stands by need their credit like before, and there is more to come than the windows hold
+	goAwayAt := -1
+	if !amplify && churn == 0 && rng.Intn(3) == 0 {
+		goAwayAt = rng.Intn(12)
+		k = 2 + rng.Intn(3)
+	}
+	replay := map[string]any{"role": "client", "downloads": k, "cancelled": nCancel, "empty_padded_frames": emptyPadded, "amplify": amplify, "cancel_churn_rounds": churn, "goaway_at_round": goAwayAt}
 	failed := false
 	fail := func(rule, detail string) {
 		if !failed {
@@ -558,6 +565,9 @@ func c14Client(r *vf.Run, t *testing.T, id string, rng *rand.Rand) {
 			if amplify {
 				size = 300000
 			}
+			if goAwayAt >= 0 {
+				size = 400000 + rng.Intn(500000)
+			}
 			x.body = make([]byte, size)
 			rng.Read(x.body)
 			x.chunks = []int{16384, 1 + rng.Intn(16000)}
@@ -595,6 +605,7 @@ func c14Client(r *vf.Run, t *testing.T, id string, rng *rand.Rand) {
 		}
 		rt.Wait()
 		resetSeen := map[uint32]bool{}
+		goAwaySent := false
 		check := func(where string) bool {
 			fsn := e.P.FramesFrom(led.seen)
 			led.absorb(fsn)
@@ -606,7 +617,7 @@ func c14Client(r *vf.Run, t *testing.T, id string, rng *rand.Rand) {
 				if f.Type == wire.TRstStream {
 					resetSeen[f.Stream] = true
 				}
-				if f.Type == wire.TGoAway {
+				if f.Type == wire.TGoAway && !goAwaySent {
 					fail("connection-torn-down", where+": the client sent "+f.String()+" to a server that stayed within its windows")
 					return false
 				}
@@ -626,6 +637,15 @@ func c14Client(r *vf.Run, t *testing.T, id string, rng *rand.Rand) {
 		for round := 0; round < 400000 && !failed; round++ {
 			progressed := false
 			var burst []byte
+			if round == goAwayAt {
+				var top uint32
+				for _, x := range xs {
+					top = max(top, x.stream)
+				}
+				e.P.Write(rt.GoAway([]uint32{top, 1<<31 - 1}[rng.Intn(2)], 0, "shutting down, finishing what is in flight"))
+				goAwaySent = true
+				r.Inc("graceful_goaway_during_downloads", 1)
+			}
 			for _, x := range xs {
 				if x.dead || x.endSent {
 					continue
